@@ -319,6 +319,19 @@ theorem bvs_pass_after_any_history (layout : List Nat) (hl : ∀ n ∈ layout, 0
   simp only [BVS.remaining, passSpec, mkBVS]
   rw [bvs_iterate_eq _ bs hbs (rankVols_pos layout world rank limit hl)]
 
+/-- the same for an arbitrary object (any inner sampler, any `volume_indices`, also inconsistent ones — the
+`bvsmraw` driver operation): a pass started after any history is the pass of a fresh object, `b.iterate` -/
+theorem bvs_any_object_pass_after_any_history (b : BVS) (pre ops : List MOp)
+    (hna : MOp.abandon ((Machine.init b).exec pre).gens.length ∉ ops) :
+    nextOuts ((Machine.init b).exec pre).gens.length ops ((((Machine.init b).exec pre).step .iter).1.run ops) =
+      (List.range (ops.count (.next ((Machine.init b).exec pre).gens.length))).map
+        fun n => MOut.ofOpt (b.iterate[n]?) := by
+  generalize hm : (Machine.init b).exec pre = m at *
+  have hobj : m.obj = b := by rw [← hm]; exact Machine.exec_obj _ pre
+  have hg : (m.step .iter).1.gens[m.gens.length]? = some (some GenSt.fresh) := by simp [Machine.step]
+  rw [machine_pass_general ops _ _ _ hg hna, Machine.step_obj, hobj]
+  rfl
+
 /-- the one pass has exactly `len()` batches: an iterator run to the end returns `len()` batches and then
 `StopIteration` (with `bvs_pass_after_any_history`: the `n`-th `next` is a batch iff `n < len()`) -/
 theorem bvs_pass_length_eq_len (layout : List Nat) (world rank : Nat) (limit : Int) (bs : Nat) (hbs : 0 < bs) :
